@@ -1,7 +1,7 @@
 (* C20 -- each interaction/form is defined at most once; duplicates are rejected.
    model/Duplicates.v restates the strict INI parse on normalised keys, _check_for_duplicate_pairs,
    check_for_duplicate_table_forms and the registry's label checks. *)
-From V Require Import lib.Common model.Store model.Duplicates proof.C20 model.Ini proof.IniProofs proof.IniFile.
+From V Require Import lib.Common model.Store model.Duplicates proof.C20 model.Ini proof.IniProofs proof.IniFile proof.IniFile2 proof.StoreText.
 
 (* a second definition of the same pair interaction, in either species order, is rejected ... *)
 Theorem c20_pairs_reject : forall ks1 ks2 ks3 a b c d,
@@ -50,3 +50,17 @@ Proof. exact duplicate_option. Qed.
 Theorem c20_key_blanks : forall l1 l2, filter nb l1 = filter nb l2 -> xform l1 = xform l2.
 Proof. exact xform_blanks. Qed.
 Print Assumptions c20_duplicate_option_text.
+
+(* --- the store model and the characters agree (proof/StoreText.v): print a raw file -- every key in the spelling its entry
+       carries (blanks / tabs around "-", "->", inside "f( r , a )", around a table-form name), ":" or "=" with the blanks of that
+       spelling, continuation lines, an empty line after every section -- and the line parser reads back exactly the store that
+       Store.parse accepts, keys as their blank-free texts.  ltext gives the labels their text (any non-empty texts without
+       whitespace, delimiters, brackets, comment characters, "-", ">", "(", ")", ","); compat says that distinct keys of a section
+       and distinct sections have distinct texts (computable; evaluated on every generated file). *)
+Theorem c20_store_text : forall (ltext : nat -> list Z), (forall n, label_ok (ltext n)) ->
+  forall (f : rawfile val) st, values_ok f -> compat ltext f = true -> Store.parse f = Ok st ->
+  parse_ini (printed ltext f) = Some (text_store ltext f).
+Proof. exact store_text_printed. Qed.
+Theorem c20_key_spellings : forall (ltext : nat -> list Z), (forall n, label_ok (ltext n)) -> forall k sp, xform (key_text ltext k sp) = canon ltext k.
+Proof. exact xform_key_text. Qed.
+Print Assumptions c20_store_text.
